@@ -21,12 +21,12 @@ func init() {
 		Rule: "pipelines <k requests> Unbind <m requests> for all k,m in 0..3 (0..8 in thorough) x {whole pipeline in one write (same TCP segment), one write per frame, byte-dribbled} x {no unbind route, unbind route registered, unbind route whose handler panics} x " +
 			"{earlier handlers finished, earlier handlers parked on a harness gate (also 63..300 of them at once), an earlier handler that panicked and was recovered} x Unbind message IDs {555, 0, 1, 99, 2^31-1} x {plain, TLS listener, StartTLS-upgraded}; the requests after the Unbind include every operation kind and a second Unbind. Oracle: the set of dispatched message IDs equals the k earlier ones; " +
 			"the unbind handler ran exactly once when registered; the strictly parsed stream up to EOF contains exactly one response per earlier request and nothing carrying the Unbind's or a later request's message ID; " +
-			"with parked handlers EOF is not seen before the gate opens and is seen after. A second scenario stops the server while an Unbind and its followers sit unread in the connection's buffer behind a held StartTLS (read-loop) handler: no answer to the Unbind, nothing behind it dispatched. A third stops the server in the window between reading an Unbind and acting on it (the window held open at gldap's own 'packet read' Debug log line through the user-supplied logger; the beginning of the shutdown observed on a second, idle connection): the unbind handler still runs exactly once. A fourth gives one Mux to two servers (plain+plain, plain+TLS) and alternates Unbind-terminated sessions between them: one handler run per session. distinct_nontrivial = distinct (k, m, write mode, route, parked, transport) combinations",
+			"with parked handlers EOF is not seen before the gate opens and is seen after. A second scenario stops the server while an Unbind and its followers sit unread in the connection's buffer behind a held StartTLS (read-loop) handler: no answer to the Unbind, nothing behind it dispatched. A third stops the server in the window between reading an Unbind and acting on it (the window held open at gldap's own 'packet read' Debug log line through the user-supplied logger; the beginning of the shutdown observed on a second, idle connection): the unbind handler still runs exactly once. A fourth gives one Mux to two servers (plain+plain, plain+TLS) and alternates Unbind-terminated sessions between them: one handler run per session. A fifth attaches the empty mux (Server.Router) before the routes are registered, Run last. distinct_nontrivial = distinct (k, m, write mode, route, parked, transport) combinations",
 		Assume: []string{"'dispatched' is observed by recording handlers on every route kind including the default route"},
 		Phases: func(tier string, seed int64) []Phase {
 			return []Phase{{Name: "pipelines", Run: c10Run}}
 		},
-		MinObserved: []string{"pipelines_checked", "requests_after_unbind_sent", "eof_withheld_until_release_observed", "pipelines_after_a_write_fault", "pipelines_with_an_earlier_handler_panic", "unbinds_with_unusual_message_ids", "stops_with_an_unbind_pipeline_in_the_read_buffer", "stops_between_reading_an_unbind_and_acting_on_it", "unbinds_on_servers_that_share_a_mux", "pipelines_inside_a_starttls_upgraded_session"},
+		MinObserved: []string{"pipelines_checked", "requests_after_unbind_sent", "eof_withheld_until_release_observed", "pipelines_after_a_write_fault", "pipelines_with_an_earlier_handler_panic", "unbinds_with_unusual_message_ids", "stops_with_an_unbind_pipeline_in_the_read_buffer", "stops_between_reading_an_unbind_and_acting_on_it", "unbinds_on_servers_that_share_a_mux", "second_unbinds_sent_behind_the_first", "unbinds_on_a_server_whose_routes_were_registered_after_the_mux_was_attached", "pipelines_inside_a_starttls_upgraded_session"},
 	})
 }
 
@@ -140,6 +140,65 @@ func c10Run(c *Ctx) {
 	for round := 0; round < c.N(4, 40); round++ {
 		c10SharedMux(c, pki, round)
 	}
+	for round := 0; round < c.N(4, 40); round++ {
+		c10RouterFirst(c, round)
+	}
+}
+
+// c10RouterFirst: the (empty) mux is attached with Server.Router first, the routes - the unbind route among them - are
+// registered afterwards, Run comes last. Sessions that end with an Unbind run the unbind handler exactly once.
+func c10RouterFirst(c *Ctx, round int) {
+	var runs atomic.Int64
+	var mu sync.Mutex
+	var dispatched []string
+	srv, err := startSrv(SrvCfg{RouterFirst: true}, func(m *gldap.Mux) {
+		rec := func(name string) gldap.HandlerFunc {
+			return func(w *gldap.ResponseWriter, req *gldap.Request) {
+				mu.Lock()
+				dispatched = append(dispatched, name)
+				mu.Unlock()
+				replyFor(observe(name, req), w, req)
+			}
+		}
+		m.Bind(rec("bind"))
+		m.Search(rec("search"))
+		m.Unbind(func(w *gldap.ResponseWriter, req *gldap.Request) { runs.Add(1) })
+	})
+	if err != nil {
+		c.Inconclusive("server start: " + err.Error())
+		return
+	}
+	defer srv.StopWithin(patience)
+	for k := int64(1); k <= 3; k++ {
+		before := srv.closeCnt.Load()
+		cl, err := dialRaw(srv.Addr, nil)
+		if err != nil {
+			c.Inconclusive("dial: " + err.Error())
+			return
+		}
+		cl.Send(sber.Message(1, sber.BindRequest(3, []byte("cn=x"), []byte("p")), nil).Encode())
+		cl.ReadMsg(patience)
+		buf := sber.Message(2, sber.UnbindRequest(), nil).Encode()
+		if round%2 == 1 {
+			buf = append(buf, sber.Message(3, sber.Search{Base: []byte("dc=after"), Scope: 2, Filter: sber.PresentFilter("cn"), Attrs: [][]byte{}}.Node(), nil).Encode()...)
+		}
+		cl.Send(buf)
+		cl.ReadToEOF(patience)
+		cl.Close()
+		srv.WaitCloses(before+1, patience)
+		mu.Lock()
+		nd := len(dispatched)
+		mu.Unlock()
+		if got := runs.Load(); got != k {
+			c.Violate("the unbind handler did not run exactly once", fmt.Sprintf("routes registered after the mux was attached: after %d sessions that ended with an Unbind the unbind handler has run %d times", k, got), map[string]any{"round": round})
+			return
+		}
+		if nd != int(k) {
+			c.Violate("a request that followed the Unbind was dispatched to a handler", fmt.Sprintf("routes registered after the mux was attached: %d handler runs for %d binds", nd, k), map[string]any{"round": round})
+			return
+		}
+	}
+	c.Count("unbinds_on_a_server_whose_routes_were_registered_after_the_mux_was_attached", 3)
 }
 
 // c10StopAfterTheUnbindWasRead: the server is stopped in the window between "the Unbind has been read" and "the
@@ -561,10 +620,11 @@ func c10One(c *Ctx, pki *PKI, srvs map[string]*Srv, cs c10Case, r *Rand, idx int
 		id := int64(700 + i)
 		after[id] = true
 		var f []byte
-		switch i % 4 {
-		case 3:
-			f = sber.Message(id, sber.UnbindRequest(), nil).Encode() // a second unbind
-		case 2:
+		switch {
+		case i%4 == 3, i == 0 && cs.K%2 == 1:
+			f = sber.Message(id, sber.UnbindRequest(), nil).Encode() // a second unbind (in odd-k pipelines right behind the first)
+			c.Count("second_unbinds_sent_behind_the_first", 1)
+		case i%4 == 2:
 			f = sber.Message(id, sber.ExtendedRequest([]byte(sber.OIDStartTLS), nil, false), nil).Encode()
 		default:
 			f = mkReq(id, true, i)
